@@ -63,7 +63,49 @@ def test_fa():
     return n
 
 
-TESTS = [('fa', test_fa)]
+def test_rx():
+    from mc import spaces
+    from mc.oracles import fa, rx
+    n = 0
+    ws = list(spaces.words(['a', 'b'], 4))
+    for idx, r in rx.trees_up_to(5):
+        G = rx.glushkov(r)
+        for w in ws:
+            assert rx.matches(r, w) == fa.accepts(G, w), (r, w)
+            n += 1
+    return n
+
+
+def test_cfg():
+    from mc import spaces
+    from mc.oracles import cfg
+    n = 0
+    ws = list(spaces.words(['a', 'b'], 3))
+    for idx, g in cfg.cfg2():
+        if idx % 40:
+            continue
+        lang, _ = cfg.language(g, 3)
+        for w in ws:
+            assert (w in lang) == cfg.derives(g, 'S', w), (g, w)
+            n += 1
+    return n
+
+
+def test_pda():
+    from mc.oracles import pda
+    n = 0
+    for idx, spec in pda.pdas(2, 1, 1, 2):
+        P = pda.ref(spec)
+        for w in ('', 'a', 'aa', 'aaa'):
+            s = pda.accepts(P, w)
+            v, complete, mx, _ = pda.run_sets(P, w, 300)
+            if complete:
+                assert s == v, (spec, w, s, v)
+                n += 1
+    return n
+
+
+TESTS = [('fa', test_fa), ('rx', test_rx), ('cfg', test_cfg), ('pda', test_pda)]
 
 
 def main():
